@@ -286,6 +286,24 @@ def masking(index: RepoIndex, rep, rule: str, pipe: Pipeline) -> None:
                 for c_ in lc_.generators[0].ifs:
                     extra_parts.append(w.expand_formula(
                         formula_of(ren_.visit(copy.deepcopy(c_))), stop=[g, pipe.vis_name, pos]))
+        only_hidden = False
+        if not loop_ok and e.loops and isinstance(e.target.slice, ast.Tuple) and \
+                len(e.target.slice.elts) == 2 and \
+                src(e.loops[-1][0]) == src(e.target.slice):
+            # the loop visits exactly the cells where the visibility is false:
+            # np.argwhere(np.logical_not(V)) (optionally .tolist()), zip(*np.nonzero(..))
+            it_ = src(w.expand(e.loops[-1][1], stop=[g, pipe.vis_name]))
+            V_ = pipe.vis_name
+            negs = (f'np.logical_not({V_})', f'~{V_}', f'np.invert({V_})')
+            forms = [f'np.argwhere({n_})' for n_ in negs] + \
+                [f'np.argwhere({n_}).tolist()' for n_ in negs] + \
+                [f'zip(*np.nonzero({n_}))' for n_ in negs] + \
+                [f'zip(*np.where({n_}))' for n_ in negs] + \
+                [f'np.transpose(np.nonzero({n_}))' for n_ in negs] + \
+                [f'np.transpose(np.nonzero({n_})).tolist()' for n_ in negs]
+            if it_ in forms:
+                loop_ok = only_hidden = True
+                yx = tuple(src(x) for x in e.target.slice.elts)
         if not loop_ok and len(e.loops) >= 2 and isinstance(e.target.slice, ast.Tuple) and \
                 len(e.target.slice.elts) == 2:
             # nested loops over all rows and all columns of the observation grid
@@ -317,7 +335,11 @@ def masking(index: RepoIndex, rep, rule: str, pipe: Pipeline) -> None:
             src(vis_parts[0][1].slice) in ((f'({pos}.y, {pos}.x)', f'{pos}.yx',
                                             f'({pos}.yx[0], {pos}.yx[1])') if yx is None
                                            else (f'({yx[0]}, {yx[1]})',))
-        if not guard_ok:
+        if only_hidden:
+            # the iteration itself selects the invisible cells: the store must be unconditional
+            # (up to the fall-through of the shape check)
+            guard_ok = not vis_parts and not other
+        if not guard_ok and not only_hidden:
             # semantic reading: the store happens exactly when the cell is not visible and no
             # earlier check of the function raised
             from ..guards import f_and as _and, parse_guard, prop_equiv
@@ -344,6 +366,14 @@ def masking(index: RepoIndex, rep, rule: str, pipe: Pipeline) -> None:
         rep.check(not reason, rule, OBS, 'from_visibility', e.line, src(e.stmt),
                   'store into the observation grid ' + '; '.join(reason), 'masking store')
         n_mask += 1
+    pm = getattr(pipe, 'pure_mask', None)
+    if pm is not None and n_mask == 0:
+        # the masked copy is the only thing returned; the visibility it consults must be the
+        # array the visibility function returned for this view
+        rep.check(pm[2] == pipe.vis_name, rule, OBS, 'from_visibility', fn.node.lineno,
+                  src(pm[3])[:160], f'the view is masked by `{pm[2]}`, not by the visibility '
+                  f'computed for it (`{pipe.vis_name}`)', 'masking by a pure pass')
+        return
     if n_mask == 0:
         elsewhere = [e for e in w.events if e.kind == 'store' and e.value is not None
                      and 'Hidden()' in src(e.value)]
